@@ -33,6 +33,7 @@ pub struct Profile {
     pub w_clone: u64,
     pub w_encaps: u64,
     pub w_recaps: u64,
+    pub w_header: u64,
     pub w_roundtrip: u64,
     pub w_mpk: u64,
     pub w_save: u64,
@@ -63,6 +64,7 @@ pub fn profile(name: &str) -> Profile {
         w_clone: 2,
         w_encaps: 8,
         w_recaps: 3,
+        w_header: 2,
         w_roundtrip: 3,
         w_mpk: 1,
         w_save: 0,
@@ -86,6 +88,7 @@ pub fn profile(name: &str) -> Profile {
             w_refresh: 0,
             w_clone: 0,
             w_recaps: 0,
+            w_header: 1,
             w_roundtrip: 0,
             w_mpk: 0,
             w_invalid: 0,
@@ -442,6 +445,7 @@ impl Driver {
             ("clone_usk", p.w_clone),
             ("encaps", p.w_encaps),
             ("recaps", p.w_recaps),
+            ("header", p.w_header),
             ("roundtrip", p.w_roundtrip),
             ("mpk", p.w_mpk),
             ("save_msk", p.w_save),
@@ -587,6 +591,19 @@ impl Driver {
                     // the policy is drawn over the current structure; older
                     // public keys may not know it, which is part of the test
                     json!({"op": "encaps", "e": format!("e{}", self.n_enc), "mpk": k, "pol": self.rand_policy(&mut rng, p, true)})
+                }
+                "header" => {
+                    let k = if rng.chance(2, 3) { nmpk } else { 1 + rng.below(nmpk) };
+                    let mut op = json!({"op": "header", "mpk": k, "pol": self.rand_policy(&mut rng, p, true)});
+                    match rng.below(3) {
+                        0 => {}
+                        1 => op["md"] = json!(""),
+                        _ => op["md"] = json!("m".repeat(1 + rng.below(40))),
+                    }
+                    if rng.chance(1, 2) {
+                        op["ad"] = json!(if rng.chance(1, 3) { "".to_string() } else { "aad".repeat(1 + rng.below(3)) });
+                    }
+                    op
                 }
                 "recaps" => match rng.pick(&encs) {
                     Some(from) => {
